@@ -49,6 +49,16 @@ Definition add_row_margin (n : nat) (levels : list nat) (D : list (mkey * V)) : 
   let out := D ++ flat_map (fun l => margins_all (n - 1) (remove Nat.eq_dec l (seq 0 n)) (collapse l D)) levels in
   filter (fun r => forallb (fun i => implb (is_all (fst r) i) (existsb (Nat.eqb i) levels)) (seq 0 n)) out.
 
+(* core.crosstab: one grouping over the row keys followed by the column keys, margins over the levels of the axes that were
+   asked for, then unstack(column levels): the cell (r, c) is the row of the long result whose key is r ++ c, null
+   (None) when there is no such row *)
+Definition lookup (k : mkey) (T : list (mkey * V)) : option V :=
+  match find (fun r => key_eqb k (fst r)) T with Some r => Some (snd r) | None => None end.
+Definition crosstab_levels (n0 n1 : nat) (row_margin col_margin : bool) : list nat :=
+  (if row_margin then seq 0 n0 else []) ++ (if col_margin then seq n0 n1 else []).
+Definition crosstab_cell (n0 n1 : nat) (row_margin col_margin : bool) (D : list (mkey * V)) (r c : mkey) : option V :=
+  lookup (r ++ c) (add_row_margin (n0 + n1) (crosstab_levels n0 n1 row_margin col_margin) D).
+
 (* what a row of the result must be: the aggregate of the data rows its key stands for *)
 Fixpoint matches (q k : mkey) : bool :=
   match q, k with
